@@ -432,6 +432,36 @@ def n27_map_idioms(src, log):
         log.append(f"N27 {what} -> contains_key / remove / insert")
 
 
+def n28_into_iter_for_each(src, log):
+    """E.into_iter().for_each(|X| { BODY });   ->   { let __vx_v = E; let mut __vx_q: usize = 0;
+                                                        while __vx_q < __vx_v.len() { let X = __vx_v[__vx_q]; BODY __vx_q = __vx_q + 1; } }
+    (std: a Vec is consumed front to back; X is bound by copy, so the rule is used for vectors of Copy elements only)"""
+    while True:
+        toks = lex(src)
+        hit = None
+        for i, t in enumerate(toks):
+            if t.text == "for_each" and i >= 5 and [x.text for x in toks[i - 5:i]] == [".", "into_iter", "(", ")", "."] and toks[i + 1].text == "(":
+                cs = _chain_start(toks, i - 5)
+                e = src[toks[cs].start:toks[i - 6].end]
+                o = i + 1
+                if toks[o + 1].text != "|" or toks[o + 2].kind != "ident" or toks[o + 3].text != "|" or toks[o + 4].text != "{":
+                    continue
+                x = toks[o + 2].text
+                bo = o + 4
+                body = src[toks[bo].end:toks[toks[bo].mate].start]
+                end = toks[o].mate
+                semi = end + 1 < len(toks) and toks[end + 1].text == ";"
+                hit = (toks[cs].start, toks[end + 1].end if semi else toks[end].end, e, x, body)
+                break
+        if hit is None:
+            return src
+        a, b, e, x, body = hit
+        rep = (f"{{ let __vx_v = {e}; let mut __vx_q: usize = 0; while __vx_q < __vx_v.len() {{ let {x} = __vx_v[__vx_q]; "
+               f"{body} __vx_q = __vx_q + 1; }} }}")
+        src = src[:a] + rep + src[b:]
+        log.append(f"N28 {e[:40]}.into_iter().for_each(|{x}| ..) -> index loop")
+
+
 def find_closures(src, toks):
     """Yield (bar0, bar1, body_start_tok, body_end_tok_inclusive, has_block) for every closure."""
     res = []
@@ -1585,6 +1615,8 @@ def normalise(src, rules, log, ctx=None):
             src = n10_entry_append(src, log)
         elif r == "nmirlits":
             src = nmirlits(src, log)
+        elif r == "n28":
+            src = n28_into_iter_for_each(src, log)
         elif r == "n27":
             src = n27_map_idioms(src, log)
         elif r == "n24":
